@@ -132,7 +132,7 @@ pub fn ghost_with<const N: usize>(double: bool, pre: Pre, tables: Tables, keys: 
     let mut hp = [0u8; N];
     let mut i = 0;
     while i < N {
-        hp[i] = sym::u8();
+        hp[i] = if unsafe { FLAT } { 7 } else { sym::u8() };
         g.pay[i] = sym::u8();
         match tables {
             Tables::Any => {
@@ -193,6 +193,16 @@ pub fn build<T: Q, const N: usize>(g: &Ghost<N>, spare: usize) -> T {
         s += 1;
     }
     T::from_raw(mk_map::<T::H>(entries, N + spare), heap, qp, N)
+}
+
+/// All priorities one concrete value: for obligations that do not depend on the priorities
+/// (table bookkeeping around callbacks in the rebuild strategy of `extend`), so that the
+/// rebuild at the end costs nothing. Recorded in the instance's meta.
+pub static mut FLAT: bool = false;
+pub fn set_flat_priorities() {
+    unsafe {
+        FLAT = true;
+    }
 }
 
 /// unused capacity of the generated pre-states (two slots unless an instance asks otherwise)
